@@ -391,21 +391,22 @@ func TestVerif_C13_NewStreamSched(t *testing.T) {
 		r.Assume(p, "scheduling points at sync/atomic/channel operations of internal/transport suffice; x/net/http2 framing and the in-memory pipe are not instrumented")
 	}
 	b := r.Pick(1, 2)
+	// cheapest first: what a scenario leaves of its share of the soft budget rolls over
 	scs := []vsched.Scenario{
 		c13QuotaScenario("quota/mcs1/pre1/new2/close1", 1, 1, 2, 1, 0, b),
-		c13QuotaScenario("quota/mcs2/pre2/new2/close2", 2, 2, 2, 2, 0, b),
-		c13QuotaScenario("quota/mcs2/pre2/new2/closeAll", 2, 2, 2, -1, 0, 2),
 		c13QuotaScenario("quota/mcs1/pre1/new2/raise2", 1, 1, 2, 0, 2, b),
-		c13QuotaScenario("quota/mcs1/pre1/new2/close1+raise2", 1, 1, 2, 1, 2, b),
 		c14GoAwayScenario("goaway1/pre1/new2", 1, 2, 1, b),
 		c13CancelScenario("quota/mcs1/pre1/new1/close1+cancel", 2),
 		c13QuotaScenario("quota/mcs1/pre1/new2/close1+cancel0", 1, 1, 2, 1, 0, b, "cancel0"),
+		c13QuotaScenario("quota/mcs2/pre2/new2/close2", 2, 2, 2, 2, 0, b),
+		c13QuotaScenario("quota/mcs2/pre2/new2/closeAll", 2, 2, 2, -1, 0, 2),
+		c13QuotaScenario("quota/mcs1/pre1/new2/close1+raise2", 1, 1, 2, 1, 2, b),
 	}
 	if r.Thorough() {
 		scs = append(scs, c13QuotaScenario("quota/mcs1/pre1/new3/close1+raise2", 1, 1, 3, 1, 2, 1), c14GoAwayScenario("goaway3/pre2/new2", 2, 2, 3, b))
 	}
 	vsched.RunScenarios(t, r, []string{"C13", "C17", "C14", "C22"}, scs)
-	for _, p := range []string{"C13", "C17", "C14"} {
+	for _, p := range []string{"C13", "C17", "C14", "C22"} {
 		r.Sample(p, map[string]any{"scenario": "quota/mcs1/pre1/new2/close1", "threads": []string{"new0, new1: NewStream (park on stream quota)", "close0: application closes the pre-opened stream", "background: reader, loopy"}})
 	}
 }
